@@ -36,7 +36,7 @@ REAL = ["pox.datapaths.switch.SoftwareSwitch (_buffer_packet, "
 STUBBED = ["socket/select/time/pinger (simkit)", "controller peer (scripted)",
            "hosts (frames injected)"]
 EXPECT_PROBES = ["pi_buffered", "pi_unbuffered", "pi_truncated",
-                 "buffer_used", "buffer_bogus"]
+                 "buffer_used", "buffer_bogus", "buffer_use_refused"]
 
 
 def _after_controller(r, nports):
@@ -109,6 +109,13 @@ def gen_plan(seed, tier):
                     "buffer": r.wpick([(5, "last"), (3, "first"), (3, "used"),
                                        (1, 0), (1, 99), (1, 0x7fffffff),
                                        (1, r.randint(1, 5))])})
+      if r.chance(0.12):
+        # an action list the switch refuses part-way: an action of a type
+        # it does not implement after (or before) plain outputs
+        steps[-1].update(acts=[["output", r.randint(1, nports), 0]
+                               for _ in range(r.randint(1, 2))],
+                         badact=r.pick([0xffff, 12, 100]),
+                         badpos=r.pick([1, 1, 0]))
     elif k == "fm_buf":
       fs, port = r.pick(frames)
       key = G.frame_key(fs, port)
